@@ -1,10 +1,9 @@
-(* Runs the extracted Coq definitions on one command per input line.
-   Bytes travel as hex strings ("-" = empty).  One result line per command. *)
-open Lz4v
-
+(* Shared by every extracted-model driver: hex transport and the command loop.
+   One command per input line, one result line per command. *)
 let z = Big_int_Z.big_int_of_int
 let zi = Big_int_Z.int_of_big_int
-
+let zs = Big_int_Z.big_int_of_string
+let zstr = Big_int_Z.string_of_big_int
 let hexval c = match c with
   | '0'..'9' -> Char.code c - 48 | 'a'..'f' -> Char.code c - 87 | 'A'..'F' -> Char.code c - 55
   | _ -> failwith "hex"
@@ -24,37 +23,19 @@ let hex_of_string (s : string) : string =
     let b = Buffer.create (2 * String.length s) in
     String.iter (fun c -> Buffer.add_string b (Printf.sprintf "%02x" (Char.code c))) s;
     Buffer.contents b end
+let hex_of_bytes l = hex_of_string (string_of_bytes l)
 let full = (try Sys.getenv "ORACLE_FULL" = "1" with Not_found -> false)
 let show_bytes l =
   let s = string_of_bytes l in
   if full then Printf.sprintf "%d %s %s" (String.length s) (Digest.to_hex (Digest.string s)) (hex_of_string s)
   else Printf.sprintf "%d %s" (String.length s) (Digest.to_hex (Digest.string s))
 let show_opt = function None -> "none" | Some l -> "ok " ^ show_bytes l
+let len l = z (List.length l)
 
 let handlers : (string, string list -> string) Hashtbl.t = Hashtbl.create 64
 let reg name f = Hashtbl.replace handlers name f
 
-let () =
-  reg "specdec" (function [h; b] -> show_opt (spec_decode_fast (bytes_of_hex h) (bytes_of_hex b)) | _ -> "badargs");
-  reg "strict" (function [h; b] -> show_opt (strict_valid_fast (bytes_of_hex h) (bytes_of_hex b)) | _ -> "badargs");
-  reg "specdec_ref" (function [h; b] -> show_opt (spec_decode (bytes_of_hex h) (bytes_of_hex b)) | _ -> "badargs");
-  reg "strict_ref" (function [h; b] -> show_opt (strict_valid (bytes_of_hex h) (bytes_of_hex b)) | _ -> "badargs");
-  reg "xxh32" (function [seed; b] -> Big_int_Z.string_of_big_int (xxh32 (Big_int_Z.big_int_of_string seed) (bytes_of_hex b)) | _ -> "badargs");
-  reg "frame" (function [strict; skip; d; b] ->
-      let bdec = if strict = "1" then strict_valid_fast else spec_decode_fast in
-      (match frame_decode bdec (skip = "1") (bytes_of_hex d) (bytes_of_hex b) with
-       | None -> "none"
-       | Some (c, rest) -> Printf.sprintf "ok %s rest=%d" (show_bytes c) (List.length rest))
-    | _ -> "badargs");
-  reg "stream" (function [strict; d; b] ->
-      let bdec = if strict = "1" then strict_valid_fast else spec_decode_fast in
-      let bs = bytes_of_hex b in
-      show_opt (stream_decode bdec false (Big_int_Z.big_int_of_int (List.length bs + 1)) (bytes_of_hex d) [] bs)
-    | _ -> "badargs")
-
-let () = Models.register reg
-
-let () =
+let main () =
   try
     while true do
       let line = input_line stdin in
